@@ -77,7 +77,7 @@ func c10Cases(tier string) []Case {
 func init() {
 	Register(&Check{
 		ID: "C10", Title: "results depend only on the balances asked for",
-		Files: append(apiFiles, hf("", "zz_verif_c10.go")), LoadPkgs: apiLoad, InitPkgs: apiInit,
+		Files: apiFiles, LoadPkgs: apiLoad, InitPkgs: apiInit,
 		Cases: c10Cases,
 		Bounds: stdBounds(
 			map[string]interface{}{"templates": "23 scripts with balance()/overdraft()/meta() origins, saves, account variables, two assets", "stores": "exact, sparse, superset, static, interned (one number object shared by equal entries) over one symbolic truth table (<=4 accounts x <=2 assets + world)", "runs_per_path": 5},
